@@ -1,6 +1,6 @@
 (* C08/Proofs.v — umbrella: re-exports the lemma files and proves the instance obligations over
    the schema that is regenerated from the current tree on every run (Generated/OtlpProto.v). *)
-From Verif Require Export Common.Base C08.Model C08.Proofs1 C08.Proofs2 C08.Proofs3 C08.Proofs4 C08.Proofs5 C08.Proofs6 C08.Proofs7 C08.Json C08.Proofs8 C08.Proofs9.
+From Verif Require Export Common.Base C08.Model C08.Proofs1 C08.Proofs2 C08.Proofs3 C08.Proofs4 C08.Proofs5 C08.Proofs6 C08.Proofs7 C08.Json C08.Proofs8 C08.Proofs9 C08.Proofs10.
 From Verif Require Import Generated.OtlpProto Generated.C08JsonDecoders.
 Local Open Scope N_scope.
 
@@ -25,29 +25,6 @@ Definition wrapper_pairs : list (nat * nat) :=
     (m_collector_metrics_v1_ExportMetricsServiceRequest, m_metrics_v1_MetricsData);
     (m_collector_trace_v1_ExportTraceServiceRequest, m_trace_v1_TracesData);
     (m_collector_profiles_v1development_ExportProfilesServiceRequest, m_profiles_v1development_ProfilesData) ].
-
-Definition fdesc_eqb (a b : fdesc) : bool :=
-  (fnum a =? fnum b)
-  && match fty a, fty b with
-     | TScalar k1, TScalar k2 => (wire_of k1 =? wire_of k2) && (N.of_nat 0 =? 0) && match k1, k2 with
-         | SU64, SU64 | SI64, SI64 | SU32, SU32 | SI32, SI32 | SEnum, SEnum | SBool, SBool | SZig32, SZig32
-         | SFix64, SFix64 | SSFix64, SSFix64 | SDouble, SDouble | SFix32, SFix32 => true | _, _ => false end
-     | TBytes, TBytes | TStr, TStr => true
-     | TId n1, TId n2 => n1 =? n2
-     | TMsg m1, TMsg m2 => (m1 =? m2)%nat
-     | _, _ => false
-     end
-  && match fcd a, fcd b with
-     | COpt, COpt | CRep, CRep | CPacked, CPacked => true
-     | COneof g1, COneof g2 => g1 =? g2
-     | _, _ => false
-     end.
-
-Lemma wrapper_layouts :
-  forallb (fun p => list_eqb fdesc_eqb (mfields (msg OtlpSchema (fst p))) (mfields (msg OtlpSchema (snd p)))
-                    && list_eqb pv_eqb (mdefault (msg OtlpSchema (fst p))) (mdefault (msg OtlpSchema (snd p))))
-          wrapper_pairs = true.
-Proof. vm_compute. reflexivity. Qed.
 
 Lemma wrappers_l : forall p, In p wrapper_pairs ->
   forall v b, encode OtlpSchema (fst p) v = encode OtlpSchema (snd p) v
@@ -77,19 +54,18 @@ Lemma proto_roundtrip_refuted_emptybytes_l :
 Proof. split; vm_compute; reflexivity. Qed.
 
 (* ---- JSON instance obligations (decoder table regenerated from the running decoders) ---- *)
-(* the fields of the reachable messages that the decoder table does NOT cover, exactly: the two
-   recorded defects of pdata/pprofile/json.go.  Dropping (or breaking) any other decoder case
-   changes this list and this proof fails. *)
-Lemma otlp_json_uncovered_l :
-  uncovered OtlpSchema OtlpJsonDecoders OtlpJsonReachable
-  = [(m_profiles_v1development_Profile, 21); (m_profiles_v1development_ValueType, 3)].
+(* FULL coverage: every field of every message reachable from the four request roots (deprecated
+   field 1000 excepted: it has no JSON form) has a decoder entry under both spellings of its key
+   with the readers the property demands.  Dropping or breaking any decoder case makes this fail;
+   `uncovered` then names the (message, field) pairs. *)
+Lemma otlp_json_uncovered_l : uncovered OtlpSchema OtlpJsonDecoders OtlpJsonReachable = [].
 Proof. vm_compute. reflexivity. Qed.
 
-Lemma otlp_json_covers_refuted_l : covers OtlpSchema OtlpJsonDecoders OtlpJsonReachable = false.
+Lemma otlp_json_covers_l : covers OtlpSchema OtlpJsonDecoders OtlpJsonReachable = true.
 Proof. vm_compute. reflexivity. Qed.
 
 (* every 64-bit integer field of every reachable message is read by a dual (number | string) reader
-   under both spellings of its key; every enum field except the recorded one accepts number | name *)
+   under both spellings of its key; every enum field accepts number | name *)
 Definition dual64_ok : bool :=
   forallb (fun m => forallb (fun d => match fty d with
                                       | TScalar k => negb (is64 k) || (fnum d =? 1000) || fcovered OtlpJsonDecoders m d
@@ -101,7 +77,7 @@ Definition enums_uncovered : list (nat * N) :=
 
 Lemma otlp_dual64_l : dual64_ok = true.
 Proof. vm_compute. reflexivity. Qed.
-Lemma otlp_enums_l : enums_uncovered = [(m_profiles_v1development_ValueType, 3)].
+Lemma otlp_enums_l : enums_uncovered = [].
 Proof. vm_compute. reflexivity. Qed.
 
 Definition with_field (m : nat) (fn : N) (x : pv) : pv :=
@@ -112,10 +88,4 @@ Definition with_field (m : nat) (fn : N) (x : pv) : pv :=
 
 Definition payload_witness : pv := with_field m_profiles_v1development_Profile 21 (VBytes [1; 2]).
 
-Lemma json_roundtrip_refuted_l :
-  exists m v, canonical OtlpSchema m v = true /\ migrate OtlpSchema m v = v
-              /\ of_json OtlpSchema OtlpJsonDecoders OtlpEnums m (to_json OtlpSchema m v) <> Some v.
-Proof.
-  exists m_profiles_v1development_Profile, payload_witness.
-  split; [vm_compute; reflexivity|]. split; [vm_compute; reflexivity|]. vm_compute. discriminate.
-Qed.
+
